@@ -1,5 +1,9 @@
 CONSTANT B = 256
 INIT Init
 NEXT Next
-INVARIANT AllRowsOk
+INVARIANT WellFormed
+INVARIANT OmegasEqCpu
+INVARIANT OmegasInv
+INVARIANT DomainInv
+INVARIANT OmegasOrder
 CHECK_DEADLOCK FALSE
